@@ -4,6 +4,7 @@
 // Preconditions respected by the generator: insert() only for absent keys (the property says
 // so; the map would store a duplicate), iterators are not used across updates.
 #include <map>
+#include <initializer_list>
 #include <optional>
 #include <vector>
 #include <algorithm>
@@ -303,11 +304,49 @@ void run_tracked_keys(Ctx &c) {
 	c.nontrivial = c.focus() == "C16" ? (removed || !ref.empty()) : ref.size() >= 3;
 }
 
+// A value type that can be list-initialised from values of its own type (a JSON-like tree): `Value v{std::move(x)}` may pick the
+// initializer_list constructor instead of the move constructor (CWG 2137: g++ does, clang 14 does not) and wrap x in a one-element
+// list. The map has to hand back the stored value itself.
+struct TreeVal {
+	int v = 0; std::vector<TreeVal> kids;
+	TreeVal() = default;
+	TreeVal(int x) : v(x) {}
+	TreeVal(std::initializer_list<TreeVal> il) : v(-1), kids(il) {}
+};
+void run_listlike_values(Ctx &c, int mode) {
+	auto &t = c.t;
+	using Map = frg::hash_map<uint64_t, TreeVal, H, track_alloc>;
+	c.op("hash_map<uint64, tree value with an initializer_list constructor> hash-mode %d", mode);
+	c.tag("list-initialisable-values");
+	Map *m = c.make<Map>(H{mode}, track_alloc{});
+	std::map<uint64_t, int> ref;
+	int nextv = 1;
+	unsigned nops = 2 + t.pick(40);
+	for(unsigned i = 0; i < nops; i++) {
+		uint64_t k = t.pick(12);
+		switch(t.pick(5)) {
+		case 0: case 1: if(!ref.count(k)) { int x = nextv++; c.op("insert(%llu, leaf %d)", (unsigned long long)k, x); m->insert(k, TreeVal(x)); ref[k] = x; } break;
+		case 2: { int x = nextv++; c.op("map[%llu] = leaf %d", (unsigned long long)k, x); (*m)[k] = TreeVal(x); ref[k] = x; break; }
+		case 3: { bool present = ref.count(k); c.op("remove(%llu) (%s)", (unsigned long long)k, present ? "present" : "absent");
+			auto r = m->remove(k);
+			VCHECK(c, "C14", r.has_value() == present, "remove(%llu) of a%s key returns %s", (unsigned long long)k, present ? " present" : "n absent", r.has_value() ? "a value" : "null_opt");
+			if(present) { VCHECK(c, "C14", r->kids.empty() && r->v == ref[k], "remove(%llu) returned a value with %zu children and payload %d; the stored value was the leaf %d", (unsigned long long)k, r->kids.size(), r->v, ref[k]); ref.erase(k); }
+			break; }
+		default: { TreeVal *g = m->get(k); bool present = ref.count(k); VCHECK(c, "C14", (g != nullptr) == present && (!present || (g->kids.empty() && g->v == ref[k])), "get(%llu) disagrees with the reference", (unsigned long long)k); break; }
+		}
+		VCHECK(c, "C14", m->size() == ref.size(), "size() is %zu, reference %zu", m->size(), ref.size());
+	}
+	c.destroy(m);
+	c.check_san("C14");
+	c.nontrivial = nops >= 10;
+}
+
 void run_optional_values(Ctx &c) {
 	auto &t = c.t;
 	using V = frg::optional<int>;
 	using Map = frg::hash_map<uint64_t, V, H, track_alloc>;
-	int mode = t.pick(7);
+	uint32_t rm = t.next(); int mode = rm % 7;
+	if((rm / 7) % 3 == 2) { run_listlike_values(c, mode); return; }
 	c.op("hash_map<uint64, optional<int>> hash-mode %d (present keys may hold a disengaged value)", mode);
 	c.tag("optional-valued-map");
 	Map *m = c.make<Map>(H{mode}, track_alloc{});
